@@ -66,6 +66,27 @@ CHECKS.update({
    technique="TLA+ scanner specification + TLC enumeration of tapes + replay on the real parser; insertion / re-layout experiments"),
 })
 
+GEN_NOTE = ("Trusted: TLC; the renderer tools/gen.py (pre-order rule list -> Grits text); the side conditions in Gen.tla that make a mutant underivable. "
+            "Bounded: two fixed type families, <= 4 processes, <= 2 functions, <= 12 rule applications per declaration, seeded -simulate sampling.")
+CHECKS.update({
+ "C05": dict(cat="model_checking", design="DESIGN.md 5 C05", engine="Gen",
+   text="Gen.tla makes typing derivations of the adjoint semi-axiomatic system the behaviours of a state machine (one action per typing rule, exact "
+        "context splitting, fresh binders); its Mut actions apply one edit that breaks the substructural discipline (unused / twice-used channel, drop "
+        "of a non-weakenable, split of a non-contractable, implicit weakening, equal or shadowing binders, multi-name provider of a non-contractable "
+        "process). The real Typecheck must reject every such program; the verdict log is compared with the expectation the specification assigns.",
+   note=GEN_NOTE, technique="TLA+ typing-derivation generator with mutation actions (TLC -simulate) + verdict conformance of the real typechecker"),
+ "C06": dict(cat="model_checking", design="DESIGN.md 5 C06", engine="Gen",
+   text="Gen.tla maintains the declaration of independence (GoalsIndependent is an invariant TLC checks on every generated goal) and its weaker-dep "
+        "mutation raises a provider's mode above a channel it uses at function and process declarations; the real Typecheck must reject these. Shift "
+        "legality and mode order are covered by C10 / C17.",
+   note=GEN_NOTE, technique="TLA+ typing-derivation generator (independence invariant) + mutation + verdict conformance"),
+ "C07": dict(cat="model_checking", design="DESIGN.md 5 C07", engine="Gen",
+   text="Both directions on the generated fragment: every complete behaviour of Gen.tla is a derivable program and must be accepted; every C07-class "
+        "mutant (payload/continuation exchanged, wrong or foreign label, missing / duplicated branch, arity, close on a client) has no derivation and "
+        "must be rejected.",
+   note=GEN_NOTE, technique="TLA+ typing-derivation generator + mutation + two-sided verdict conformance of the real typechecker"),
+})
+
 REASON_TODO = "check not built yet (build in progress, see DESIGN.md section 9)"
 
 def main():
@@ -83,6 +104,8 @@ def main():
               "kind_free_text": "trace specification: recorded hook events of the real interpreter must be a behaviour of GritsRT"},
              {"name": "TypeEq/WellFormed/ModeInfer/TypeDefs/Modes", "path": "spec/TypeEq.tla", "serves_properties": ["C08", "C10", "C16", "C17"],
               "kind_free_text": "TLA+ specifications of type equality, well-formedness, mode inference and the mode order; TLC validates call logs of the real library"},
+             {"name": "Gen", "path": "spec/Gen.tla", "serves_properties": ["C01", "C02", "C03", "C04", "C05", "C06", "C07", "C09", "C14"],
+              "kind_free_text": "TLA+ state machine whose behaviours are typing derivations (well-typed programs) and single rule-violating mutations"},
              {"name": "Scanner", "path": "spec/Scanner.tla", "serves_properties": ["C11", "C12"],
               "kind_free_text": "TLA+ state machine of the hand-written scanner over character classes; TLC enumerates all short inputs"},
              {"name": "vworker", "path": "harness/cmd/vworker", "serves_properties": ["C08", "C09", "C10", "C11", "C12", "C15", "C16", "C17"],
